@@ -4,6 +4,7 @@ import (
 	"encoding/json"
 	"fmt"
 	"io"
+	"os"
 	"sort"
 	"strings"
 
@@ -286,7 +287,26 @@ var invertedSetup = []fsx.Op{
 	{K: "RESTART"},
 }
 
+// concHarnesses: all harnesses; VERIF_HARNESS=<name>[,<name>] (development aid) keeps only the named ones, after the
+// two that the reduction cross-check of C03 always runs.
 func concHarnesses() []concArg {
+	all := concHarnessesAll()
+	only := os.Getenv("VERIF_HARNESS")
+	if only == "" {
+		return all
+	}
+	out := append([]concArg{}, all[:2]...)
+	for _, h := range all[2:] {
+		for _, n := range strings.Split(only, ",") {
+			if h.Name == n {
+				out = append(out, h)
+			}
+		}
+	}
+	return out
+}
+
+func concHarnessesAll() []concArg {
 	bigProbe := &fsx.Probe{Full: 1 << 20, Windows: []uint64{600 * 4096}}
 	inv := func(more ...fsx.Op) []fsx.Op { return append(append([]fsx.Op{}, invertedSetup...), more...) }
 	return []concArg{
@@ -358,6 +378,11 @@ func concHarnesses() []concArg {
 		// a full disk: the WRITE fails at its first allocation (nothing modified, the cached inode stays shared)
 		{Name: "fulldisk-write-setattr", DiskSize: 1539 + 1 + 6, ImplFail: true, Setup: []fsx.Op{{K: "CREATE", H: "root", N: "g"}, {K: "FILL"}}, Clients: [][]fsx.Op{
 			{{K: "WRITE", H: "root/g", Off: 0, Cnt: 4096, Pat: 0x35, Stable: 2}}, {{K: "SETATTR", H: "root/g", NoSize: true, Mtime: 555}, {K: "SETATTR", H: "root/filler", Size: 0}}, {{K: "GETATTR", H: "root/g"}}}},
+		// a full disk: the only block that a WRITE can get is the one a REMOVE is giving back - it must not be handed out
+		// before the REMOVE is committed, and what the WRITE stored must be readable afterwards
+		{Name: "fulldisk-remove-write-read", DiskSize: 1539 + 1 + 6, ImplFail: true, Setup: []fsx.Op{{K: "CREATE", H: "root", N: "g"}, {K: "CREATE", H: "root", N: "h"},
+			{K: "WRITE", H: "root/h", Off: 0, Cnt: 4096, Pat: 0x36, Stable: 2}, {K: "FILL"}}, Clients: [][]fsx.Op{
+			{{K: "REMOVE", H: "root", N: "h"}}, {{K: "WRITE", H: "root/g", Off: 0, Cnt: 4096, Pat: 0x37, Stable: 2}, {K: "READ", H: "root/g", Off: 0, Cnt: 4096}}}},
 		// a half-freed inode (the server's own Crash() stopped the background free): the first CREATE is handed its number,
 		// aborts, finishes the free in the foreground and starts again - while another CREATE of the same name runs
 		{Name: "create-create-halffreed", DiskSize: 3000, Probe: bigProbe, Setup: append(append([]fsx.Op{}, big530Setup...), fsx.Op{K: "REMOVE", H: "root", N: "big"}, fsx.Op{K: "SHRINKCRASH"}), Clients: [][]fsx.Op{
